@@ -310,4 +310,103 @@ def msgOk (O : Oracles) (m : InMsg) : Bool :=
 /-- **InDomainIn**: the messages of the ASCII-representable domain -/
 def inDomainIn (O : Oracles) (ms : List InMsg) : Bool := ms.all (msgOk O)
 
+/-! ## outside the representable domain: what the wire format can carry of a message (C01 `enc_sound_masked`)
+
+The packed integers of the ASCII grammar have fixed widths: state 3 bits, blink mask 4, interpretation 4, value 12,
+colour index 5, icons 2 + 3, font faces 3, font sizes 2, padding 2, spacing 3.  `maskMsg m` is the message whose
+fields are reduced to what those widths carry (two's complement for signed fields: `x % 2^k` is the non-negative
+remainder), with the other places where the ASCII form is coarser than the message made explicit:
+* a colour with both alternatives set is an RGB colour ("one of": RGB is looked at first);
+* a negative formatting / pair mode counts as 0 (only positive values are written), icons are written only if one of
+  them is positive;
+* a second line or second value without a pair mode implies pair mode 1;
+* a scale without positive type is no scale; a non-default text record stays non-default (its `Scale` sub-message is
+  made explicit: the wire distinguishes "no text line" from "a text line of defaults");
+* an image without data is not carried at all;
+* a negative `SleepMode` / `SleepScreenSaver` / `LoadCPU` argument is no `num`: the command is not carried.
+`inWireDomain` asks only what is needed for the lines to be lines of the grammar at all: fields within the range of
+their Go types where they are printed verbatim, strings free of `|` / LF, register ids in their alphabet, the oracle law
+of `SetNetworkConfig`, no `Processors`. -/
+
+def maskMode (m : Mode) : Mode := { state := m.state % 8, output := m.output, blink := m.blink % 16 }
+def maskExt (e : Ext) : Ext := { interp := e.interp % 16, value := e.value % 4096 }
+
+def maskColor (c : Color) : Color :=
+  match c.rgb with
+  | some rgb => { rgb := some rgb, index := none }
+  | none => { rgb := none, index := c.index.map (fun i => i % 32) }
+
+def maskFont (f : Font) : Font := { face := f.face % 8, height := f.height % 4, width := f.width % 4 }
+
+def maskStyle (ts : TextStyle) : TextStyle :=
+  { titleFont := ts.titleFont.map maskFont, textFont := ts.textFont.map maskFont, fixedWidth := ts.fixedWidth,
+    titleBarPadding := ts.titleBarPadding % 4, extraSpacing := ts.extraSpacing % 8,
+    unformattedFontSize := ts.unformattedFontSize }
+
+def maskScale (s : Scale) : Scale := if s.scaleType > 0 then s else { s with scaleType := 0 }
+
+def iconsOn (t : Text) : Bool := t.stateIcon > 0 || t.modifierIcon > 0
+def secondPresent (t : Text) : Bool := t.textline2 != [] || t.integerValue2 != 0
+
+def maskText (t : Text) : Text :=
+  if t = {} then t else
+  { integerValue := t.integerValue
+    formatting := if t.formatting < 0 then 0 else t.formatting
+    stateIcon := if iconsOn t then t.stateIcon % 4 else 0
+    modifierIcon := if iconsOn t then t.modifierIcon % 8 else 0
+    title := t.title, solidHeaderBar := t.solidHeaderBar, textline1 := t.textline1, textline2 := t.textline2
+    integerValue2 := t.integerValue2
+    pairMode := if secondPresent t && t.pairMode < 1 then 1 else if t.pairMode < 0 then 0 else t.pairMode
+    scale := some (maskScale (t.scale.getD {}))
+    textStyling := t.textStyling.map maskStyle
+    inverted := t.inverted
+    pixelColor := t.pixelColor.map maskColor
+    backgroundColor := t.backgroundColor.map maskColor }
+
+def maskGfx (g : Gfx) : Gfx := if g.imageData = [] then {} else g
+
+def maskState (s : State) : State :=
+  { s with mode := s.mode.map maskMode, color := s.color.map maskColor, ext := s.ext.map maskExt,
+           text := s.text.map maskText, gfx := s.gfx.map maskGfx }
+
+def nonNegArg (o : Option Int) : Option Int := match o with | some v => if 0 ≤ v then some v else none | none => none
+
+def maskCmd (c : Command) : Command :=
+  { c with setSleepMode := nonNegArg c.setSleepMode, setSleepScreenSaver := nonNegArg c.setSleepScreenSaver,
+           loadCPU := nonNegArg c.loadCPU }
+
+/-- **the message the wire format carries** -/
+def maskMsg (m : InMsg) : InMsg := { m with command := m.command.map maskCmd, states := m.states.map maskState }
+
+def textWire (t : Text) : Bool :=
+  i32ok t.integerValue && i32ok t.formatting && noBarLF t.title && noBarLF t.textline1 && noBarLF t.textline2 &&
+  i32ok t.integerValue2 && i32ok t.pairMode &&
+  (match t.scale with
+   | some s => i32ok s.scaleType && i32ok s.rangeLow && i32ok s.rangeHigh && i32ok s.limitLow && i32ok s.limitHigh
+   | none => true) &&
+  (match t.textStyling with | some ts => u32ok ts.unformattedFontSize | none => true)
+
+def gfxWire (g : Gfx) : Bool := u32ok g.w && u32ok g.h && u32ok g.x && u32ok g.y && u32ok g.imageData.length
+
+def stateWire (s : State) : Bool :=
+  s.ids.all u32ok &&
+  (match s.text with | some t => t = {} || textWire t | none => true) &&
+  (match s.gfx with | some g => gfxWire g | none => true) &&
+  s.processors.isNone
+
+def regWire (r : Register) : Bool :=
+  u32ok r.value && (if r.reg = 1 then r.id.all isDigit else r.id.all isUpperDigit)
+
+def cmdWire (O : Oracles) (c : Command) : Bool :=
+  optOk c.panelBrightness (fun p => u32ok p.1 && u32ok p.2) &&
+  optOk c.setNetworkConfig (fun n => O.parseNet (O.netJson n) == some n && !(O.netJson n).contains 10) &&
+  optOk c.setSleepTimeout u32ok && optOk c.setSleepMode i32ok && optOk c.setSleepScreenSaver i32ok &&
+  optOk c.setDimmedGain u32ok && optOk c.setHeartBeatTimer u32ok && optOk c.publishSystemStat u32ok && optOk c.loadCPU i32ok
+
+def msgWire (O : Oracles) (m : InMsg) : Bool :=
+  optOk m.command (cmdWire O) && m.states.all stateWire && m.registers.all regWire
+
+/-- the messages whose encoder output consists of grammar lines: no enum / bit-field range is asked -/
+def inWireDomain (O : Oracles) (ms : List InMsg) : Bool := ms.all (msgWire O)
+
 end RawPanelVerif.Spec.In
